@@ -154,7 +154,48 @@ class C06(Prop):
                 return (False, False, 0)
         return (True, True, 0)
 
+    def gen_altlit(self, rng):
+        """Strings whose alternatives share an Aho-Corasick atom at the same position and differ elsewhere (last
+        byte, case of a letter outside the atom, a longer tail); the input holds one alternative only.  Every
+        configuration — the compiler profiles in particular — must report the same rules."""
+        w = bytes(rng.choice(b"abcdefgh") for _ in range(4))
+        p4 = " ".join("%02X" % x for x in rng.bytes(4))
+        alts = [bytes([x]) for x in rng.bytes(3)]
+        t1, t2 = w.decode() + "Xy", w.decode() + "xy"
+        rules = ['rule h0 { strings: $a = { ( %s %02X | %s %02X | %s %02X ) } condition: $a }' % (p4, alts[0][0], p4, alts[1][0], p4, alts[2][0]),
+                 'rule r0 { strings: $a = /(%s|%s)/ condition: $a }' % (t1, t2),
+                 'rule r1 { strings: $a = /%s(AB|ab|Ab)/ condition: #a >= 1 }' % w.decode(),
+                 'rule h1 { strings: $a = { %s ( 00 11 | 00 22 | FF ) } condition: $a }' % p4,
+                 'rule t0 { strings: $a = "%s" $b = "%s" condition: any of them }' % (t1, t2)]
+        which = rng.below(3)
+        mem = (b"..  " + bytes.fromhex(p4.replace(" ", "")) + alts[which] + b" -- " + (t2 if which else t1).encode() + b" "
+               + w + [b"AB", b"ab", b"Ab"][which] + b" " + bytes.fromhex(p4.replace(" ", "")) + [b"\x00\x11", b"\x00\x22", b"\xff"][which] + b" end")
+        picked = [r for r in rules if rng.chance(3, 4)] or rules[:2]
+        return {"kind": "altlit", "mem": mem.hex(), "rules_src": "\n".join(picked) + "\n"}
+
+    def term_altlit(self, ctx, case, out):
+        if not isinstance(out, dict) or "outs" not in out:
+            return (False, False, 0)
+        outs = out["outs"]
+        if any("compile_error" in o for o in outs):
+            ctx.notes.append("altlit: compile error %s" % [o.get("compile_error") for o in outs][:1])
+            return (False, False, 0)
+        def matched(o):
+            rules = list(o.get("rules", [])) + [e["rule"] for e in o.get("events", []) if e.get("ev") == "match"]
+            return (o.get("error"), sorted(r["name"] for r in rules if r["matched"]))
+        ref = matched(outs[0])
+        ctx.count("altlit: alternatives sharing an atom, compared across configurations")
+        if not ref[1]:
+            ctx.count("altlit: nothing matches")
+        for (name, _, _, _), o in zip(CONFIGS, outs):
+            if "panic" in o or matched(o) != ref:
+                ctx.notes.append("alternatives sharing an atom: configuration %s reports %s, ref_full %s" % (name, o.get("panic") or matched(o), ref))
+                return (False, False, 0)
+        return (True, True, 0)
+
     def gen_case(self, rng):
+        if rng.chance(1, 30):
+            return self.gen_altlit(rng)
         if rng.chance(1, 40):
             return self.gen_special(rng)
         if rng.chance(1, 12):
@@ -181,6 +222,10 @@ class C06(Prop):
             c = (rng.choice(["or", "and"]), [first, second])
             if rng.chance(1, 3):
                 c = ("un", "not", c)
+            if rng.chance(1, 3):
+                # quantifiers whose bodies are decided for some iterations and need the strings for others
+                from .c04 import quantified_partial
+                c = quantified_partial(rng, 2)
             rs = {"nns": 1, "rules": [{"id": 0, "ns": 0, "name": "r0", "global": False, "private": False,
                                        "ord_index": 0, "strings": strings, "cond": c}]}
             rs = json.loads(json.dumps(rs))
@@ -207,7 +252,7 @@ class C06(Prop):
         os.makedirs(wd, exist_ok=True)
         ctx.workdir = wd
         def rules_of(c):
-            if c.get("kind") == "special":
+            if c.get("kind") in ("special", "altlit"):
                 return [{"ns": "default", "src": c["rules_src"]}]
             if c.get("kind") == "pm":
                 return [{"ns": "default", "src": c["rules_src"]}]
@@ -256,6 +301,8 @@ class C06(Prop):
         return (True, True, 0)
 
     def term(self, ctx, case, out):
+        if case.get("kind") == "altlit":
+            return self.term_altlit(ctx, case, out)
         if case.get("kind") == "special":
             return self.term_special(ctx, case, out)
         if case.get("kind") == "pm":
@@ -289,6 +336,8 @@ class C06(Prop):
         return "C06_case %s %s %s" % (ruleset.g_scanner(rs), ruleset.g_inputs(rs, mem), glist(runs))
 
     def nontrivial(self, case, out):
+        if case.get("kind") == "altlit":
+            return json.dumps([case["mem"], case["rules_src"]])
         if case.get("kind") == "special":
             return json.dumps([case["path"], case["rules_src"]])
         if case.get("kind") == "pm":
@@ -304,6 +353,8 @@ class C06(Prop):
             return None
 
     def sample(self, case, out):
+        if case.get("kind") == "altlit":
+            return {"rules": case["rules_src"], "mem": case["mem"]}
         if case.get("kind") == "special":
             return {"path": case["path"], "rules": case["rules_src"]}
         if case.get("kind") == "pm":
